@@ -53,7 +53,7 @@ func (e *Ex) Size() int {
 type ColSpec struct {
 	Name    string `json:"name"` // hex
 	NVals   int    `json:"nvals"`
-	Dist    string `json:"dist"`    // random | run | dense | unique
+	Dist    string `json:"dist"`    // random | run | dense | unique | block | edge
 	Missing int    `json:"missing"` // percent of rows lacking the column
 	Style   string `json:"style"`   // ascii | empty | utf8 | binary | nulval
 }
@@ -126,6 +126,19 @@ func (d *DataSpec) Materialize() []map[string]string {
 			switch c.Dist {
 			case "run":
 				j = (i / runLen[ci]) % c.NVals
+			case "block": // whole aligned 65536-row blocks of one value (full run containers)
+				j = (i / 65536) % c.NVals
+			case "edge": // runs touching the edges of every 65536-row block; everything else sparse
+				switch o := i % 65536; {
+				case o >= 65536-400:
+					j = 0
+				case o < 300:
+					j = 1
+				case rng.Intn(40) == 0 && c.NVals > 2:
+					j = 2 + rng.Intn(c.NVals-2)
+				default:
+					continue
+				}
 			case "dense":
 				j = 0
 				if rng.Intn(50) == 0 {
